@@ -3,6 +3,8 @@ package main
 import (
 	"encoding/json"
 	"fmt"
+	"io"
+	"log"
 	"sync/atomic"
 
 	z80 "github.com/koron-go/z80"
@@ -37,6 +39,7 @@ type c11Runner struct {
 	midBad   [2]string
 	// bank switching from inside a callback: at access number swapAt (>0) of the Step the callback re-points
 	// CPU.Memory to alt[i]
+	looks  [2]func()
 	alt    [2]*obs.Mem
 	swapAt int
 	nAcc   [2]int
@@ -66,6 +69,7 @@ func newC11Runner(bg *[65536]uint8) *c11Runner {
 				}
 			}
 		}
+		r.looks[i] = look
 		r.mem[i].Hook = func(bool, uint16) {
 			look()
 			if r.swapAt > 0 {
@@ -317,7 +321,7 @@ func checkC11(c *Ctx) {
 		fs = append(fs, 0x44, 0x81, 0xC5, 0x3A)
 	}
 	lat := newLattice(c.Salt, false)
-	c.Rule = fmt.Sprintf("all 255 second bytes after DD/FD and all 256 fourth bytes after DDCB/FDCB (implemented or not) x lattice (as C01 quick, IX and IY independent and distinct; all 256 d for forms with a displacement) x %d F values; per case 4 real Steps: DD(s), FD(mirror s), DD(s with IY flipped), FD(mirror s with IX flipped); no reference model; during every device callback the other index register holds its value; the next Step with an NMI pending is the same in both forms; the probe instructions BIT 0,(HL) and SCF executed right after it end identically (all flag bits); with the callback re-pointing CPU.Memory to another bank at every access after the first fetch of the Step (forms with a data access) both forms touch the two banks identically. Concrete-type pass: both forms of every byte on DumbMemory (len 65536, 65536+256, 32768) and MapMemory handed over unwrapped vs behind an opaque wrapper (same post-state and contents), which carries the symmetry over to the package's own device types. Non-trivial = the DD Step changed state beyond PC/R or made a data access (counted).", len(fs))
+	c.Rule = fmt.Sprintf("all 255 second bytes after DD/FD and all 256 fourth bytes after DDCB/FDCB (implemented or not) x lattice (as C01 quick, IX and IY independent and distinct; all 256 d for forms with a displacement) x %d F values; per case 4 real Steps: DD(s), FD(mirror s), DD(s with IY flipped), FD(mirror s with IX flipped); no reference model; during every device callback - and whenever the package writes to the log while executing a form - the other index register holds its value; the next Step with an NMI pending is the same in both forms; the probe instructions BIT 0,(HL) and SCF executed right after it end identically (all flag bits); with the callback re-pointing CPU.Memory to another bank at every access after the first fetch of the Step (forms with a data access) both forms touch the two banks identically. Concrete-type pass: both forms of every byte on DumbMemory (len 65536, 65536+256, 32768) and MapMemory handed over unwrapped vs behind an opaque wrapper (same post-state and contents), which carries the symmetry over to the package's own device types. Non-trivial = the DD Step changed state beyond PC/R or made a data access (counted).", len(fs))
 	c.Bound = fmt.Sprintf("lattice v1 quick x %d F", len(fs))
 	bg := obsBackground(c)
 	runners := make([]*c11Runner, 16)
@@ -378,6 +382,43 @@ func checkC11(c *Ctx) {
 	c.States *= int64(len(fs))
 	c.Transitions = c.Evaluations * 4
 	c.Traces = c.Evaluations
+	// the log destination is an observer too: when a form logs (an unassigned code), the writer may look at the
+	// CPU - the other index register holds its value then as well. Single-threaded (the logger is global).
+	{
+		r := newC11Runner(bg)
+		cur := -1
+		log.SetOutput(c11LogWriter(func() {
+			if cur >= 0 {
+				r.looks[cur]()
+			}
+		}))
+		var cs Case
+		var nlog int64
+		for ei := range encs {
+			e := &encs[ei]
+			if len(e.Fixed) == 4 && ei%8 != 0 {
+				continue
+			}
+			for b := 0; b < 2; b++ {
+				p := baseVector(b)
+				materialise(&p, e, &cs)
+				ms := mirrorState(cs.S)
+				cur = 0
+				r.run(0, &cs, 0xDD, &cs.S)
+				cur = 1
+				r.run(1, &cs, 0xFD, &ms)
+				cur = -1
+				nlog++
+				for i := 0; i < 2; i++ {
+					if r.midBad[i] != "" {
+						c.Report("c11/mirror:"+e.Name, int64(ei)*4+int64(b), "", cs.toJSON(c.Salt), []string{fmt.Sprintf("encoding %s (%s): %s (seen from a device callback or from the writer the package logs to while executing the form)", e.Name, hexBytes(cs.Bytes), r.midBad[i])})
+					}
+				}
+			}
+		}
+		log.SetOutput(io.Discard)
+		c.Evaluations += nlog
+	}
 	c.Set("second_and_fourth_bytes", len(encs))
 	// the same forms on the package's concrete memory types: a type-switched fast path in one form only
 	// would break the symmetry for embedders that use DumbMemory/MapMemory directly
@@ -410,3 +451,8 @@ func replayC11(c *Ctx, raw []byte) []string {
 	r := newC11Runner(obs.NewBackground(j.Salt))
 	return cloneStrings(r.one(&cs))
 }
+
+// c11LogWriter calls f on every Write (the application's log destination looking at the CPU).
+type c11LogWriter func()
+
+func (w c11LogWriter) Write(p []byte) (int, error) { w(); return len(p), nil }
